@@ -54,3 +54,19 @@ Definition qt_end (t : qtank) : qtank :=
       mkQT (mkQS (s_cap s) sto sto (s_act s)) (l_end (qt_l t))
   end.
 Definition qt_ds (t : qtank) : vqip := vds (s_sto (qt_s t)) (s_sto_ (qt_s t)).
+
+(* operations of the queue-tank interpreter (also used by the correspondence check) *)
+Inductive qop :=
+| QPush (v : vqip) (time : nat) (force : bool) | QPull (v : Q) | QPullExact (v : vqip)
+| QCheck (ov : option vqip) | QAvail | QEnd (T : Q) | QDs | QSetT (T : Q).
+Definition qtank_do (t : qtank) (o : qop) : qtank * vqip :=
+  match o with
+  | QPush v time f => qt_push t v time f
+  | QPull v => qt_pull t v
+  | QPullExact v => qt_pull_exact t v
+  | QCheck ov => (t, qt_push_check t ov)
+  | QAvail => (t, qt_get_avail t)
+  | QEnd T => (qt_end (qt_set_T t T), vzero)
+  | QDs => (t, qt_ds t)
+  | QSetT T => (qt_set_T t T, vzero)
+  end.
